@@ -30,11 +30,15 @@ def s_mode_dot(draw):
     tr = draw(st.booleans()) and not vec
     j = draw(st.integers(1, 4))
     mshape = [shape[mode]] if vec else ([shape[mode], j] if tr else [j, shape[mode]])
-    return {"X": draw(enc(shape)), "M": draw(enc(mshape)), "mode": mode, "transpose": tr, "kind": "vector" if vec else "matrix"}
+    bad = draw(st.integers(0, 7)) == 0
+    if bad:                              # mismatched contraction size: the call must exit by ValueError
+        mshape = [m + 1 if m == shape[mode] else m for m in mshape]
+    return {"X": draw(enc(shape)), "M": draw(enc(mshape)), "mode": mode, "transpose": tr, "kind": "vector" if vec else "matrix", "bad": bad}
 
 
 def b_mode_dot(e, ctx):
-    return Call(_dispatch("mode_dot"), dict(tensor=ctx.A(e["X"]), matrix_or_vector=ctx.A(e["M"]), mode=e["mode"], transpose=e["transpose"]))
+    return Call(_dispatch("mode_dot"), dict(tensor=ctx.A(e["X"]), matrix_or_vector=ctx.A(e["M"]), mode=e["mode"], transpose=e["transpose"]),
+                expect_exc=e["bad"])
 
 
 register("mode_dot", s_mode_dot(), b_mode_dot, dtypes=CPLX, backends=True, quick=150)
